@@ -272,7 +272,44 @@ fn long_cell(spec: &Value, dir: &str) -> Value {
     let size = spec["size"].as_u64().unwrap() as u16;
     let chunk = spec["chunk"].as_u64().unwrap() as usize;
     let mut bad: Option<(String, String)> = None;
-    if spec["regime"] == "huge" {
+    if spec["regime"] == "capacity" {
+        // the bound is `size` pieces whatever size x chunk amounts to (products beyond 2^28 and 2^32 bytes)
+        let path = format!("{dir}/cap_{}", std::process::id());
+        let f = OpenOptions::new().write(true).create(true).truncate(true).open(&path).unwrap();
+        let mut w = Window::new(size, chunk, f);
+        let mut accepted = 0u64;
+        for i in 0..(size as u64 + 2) {
+            c.transitions += 1;
+            let full_before = w.is_full();
+            let r = w.add(vec![(i % 251) as u8]);
+            if r.is_ok() {
+                accepted += 1;
+            }
+            let should = i < size as u64;
+            if r.is_ok() != should || full_before != (i >= size as u64) {
+                bad = Some(("add-bound".into(), format!("window of size {size} (chunk {chunk}): add #{} {} while the buffer held {} pieces (is_full() said {full_before})", i + 1, if r.is_ok() { "succeeded" } else { "failed" }, i.min(accepted))));
+                break;
+            }
+        }
+        drop(w);
+        let _ = std::fs::remove_file(&path);
+        if bad.is_none() && (size as u64) * (chunk as u64) <= 400_000_000 {
+            // source side: one fill of a (sparse) file large enough hands out exactly `size` pieces of `chunk` bytes
+            let sp = format!("{dir}/capsrc_{}", std::process::id());
+            let f = File::create(&sp).unwrap();
+            f.set_len((size as u64 + 3) * chunk as u64).unwrap();
+            drop(f);
+            let mut w = Window::new(size, chunk, File::open(&sp).unwrap());
+            let filled = w.fill();
+            c.transitions += 1;
+            if filled.is_err() || w.len() != size || !w.is_full() || w.get_elements().iter().any(|p| p.len() != chunk) {
+                bad = Some(("fill-bound".into(), format!("window of size {size} (chunk {chunk}) over a file of {} bytes: one fill gave {} pieces (is_full() = {})", (size as u64 + 3) * chunk as u64, w.len(), w.is_full())));
+            }
+            drop(w);
+            let _ = std::fs::remove_file(&sp);
+        }
+        c.samples.push(json!({"regime": "capacity", "size": size, "chunk": chunk}));
+    } else if spec["regime"] == "huge" {
         // a file beyond 4 GiB (sparse: zeros except for position-coded stretches at the start and around byte 2^32),
         // streamed through fill/remove: every piece is compared with what the file holds at its offset
         use std::io::{Seek, SeekFrom, Write};
@@ -411,7 +448,7 @@ pub fn cell(spec: &Value) -> Value {
     let mut c = Counters::default();
     let dir = format!("{}/c18", scratch_root());
     let _ = std::fs::create_dir_all(&dir);
-    if spec["regime"] == "stream" || spec["regime"] == "bulk" || spec["regime"] == "huge" {
+    if spec["regime"] == "stream" || spec["regime"] == "bulk" || spec["regime"] == "huge" || spec["regime"] == "capacity" {
         let v = long_cell(spec, &dir);
         let _ = std::fs::remove_dir_all(&dir);
         return v;
@@ -513,6 +550,10 @@ pub fn check(tier: Tier) -> Outcome {
             }
         }
     }
+    // capacity is counted in pieces, not bytes: size x chunk beyond 2^28 and 2^32
+    for (size, chunk) in [(4200u64, 65464u64), (40000, 8192), (65535, 4097), (65535, 65464), (513, 65464), (600, 65464)] {
+        cells.push(json!({"regime": "capacity", "size": size, "chunk": chunk}));
+    }
     // a file beyond 4 GiB (a 32-bit byte offset would wrap)
     cells.insert(0, json!({"regime": "huge", "size": 4, "chunk": 65464}));
     // more than 65536 chunks handed out from one file (a 16-bit chunk counter would wrap)
@@ -526,7 +567,7 @@ pub fn check(tier: Tier) -> Outcome {
     let res = run_cells("c18", cells, &crate::pool_opts(tier));
     let mut out = Outcome::new("C18", "model_checking");
     out.absorb(res, n);
-    out.rule = format!("all sequences of exactly {depth} operations (every prefix checked) for (size, chunk, file length) in {{0..3}} x {{1..3}} x {{0..7}}: source regime (read-only file) over {{fill, remove(0..size+1), add(chunk), add(0)}}, sink regime (fresh write-only file) over {{add(chunk/1/0), remove(0..size+1), empty}}, mixed regime (read+write handle, cursor-independent clauses only); plus sizes 65534/65535 with chunk 1 over a reduced alphabet to depth {bdepth}; plus streaming whole files of 8191..200000 bytes through fill/remove for chunk sizes 1..5000 (more than 65536 chunks) and one sparse file of 4 GiB + 196409 bytes with chunk size 65464, and bulk sinks of 1023..65535 pieces. After every operation the observers len/is_empty/is_full/get_elements (and the sink file) are compared with a VecDeque reference with a read cursor and an end-seen flag. non-trivial = sequences containing a fill or add. states = sequences, transitions = operations applied to the real Window.");
+    out.rule = format!("all sequences of exactly {depth} operations (every prefix checked) for (size, chunk, file length) in {{0..3}} x {{1..3}} x {{0..7}}: source regime (read-only file) over {{fill, remove(0..size+1), add(chunk), add(0)}}, sink regime (fresh write-only file) over {{add(chunk/1/0), remove(0..size+1), empty}}, mixed regime (read+write handle, cursor-independent clauses only); plus sizes 65534/65535 with chunk 1 over a reduced alphabet to depth {bdepth}; plus streaming whole files of 8191..200000 bytes through fill/remove for chunk sizes 1..5000 (more than 65536 chunks) and one sparse file of 4 GiB + 196409 bytes with chunk size 65464, bulk sinks of 1023..65535 pieces, and the capacity bound for size x chunk products up to 4.3 * 10^9 bytes. After every operation the observers len/is_empty/is_full/get_elements (and the sink file) are compared with a VecDeque reference with a read cursor and an end-seen flag. non-trivial = sequences containing a fill or add. states = sequences, transitions = operations applied to the real Window.");
     out.assumptions = vec!["fill's boolean result is not part of the statement and is not compared".into(), "only regular files on tmpfs (no short reads from special files)".into()];
     out
 }
